@@ -1,4 +1,5 @@
 import FmtModel.Engine
+import FmtModel.Generated.Assets
 import FmtModel.Classes.Serial
 /-
   FmtModel.Const — `dict2const` / `make_const` / `Constant`, and `convert_fmt_str` of utils.py.
